@@ -174,6 +174,9 @@ pub fn cmd_e3(args: &Args) -> i32 {
             if big && !matches!(op, OpKind::Build | OpKind::FaceIntegralsSym) {
                 continue;
             }
+            if t0.elapsed().as_secs_f64() > time_limit + 5.0 {
+                break 'outer;
+            }
             let r = fresh(|| s_seq::run_op(&case, *op));
             if seq_only {
                 continue;
@@ -184,6 +187,9 @@ pub fn cmd_e3(args: &Args) -> i32 {
                 for &t in &[0usize, 4] {
                     if big && t != 0 {
                         continue;
+                    }
+                    if t0.elapsed().as_secs_f64() > time_limit + 2.0 {
+                        break 'outer;
                     }
                     let (a, b) = run_two_callers(&case, *op, t);
                     two_caller_evals += 2;
@@ -219,6 +225,9 @@ pub fn cmd_e3(args: &Args) -> i32 {
                 }
                 // twice: repeated calls in one process must agree too
                 for _rep in 0..2 {
+                    if t0.elapsed().as_secs_f64() > time_limit + 2.0 {
+                        break 'outer;
+                    }
                     let o = run_real_in_pool(&case, *op, t);
                     evals += 1;
                     *by_pool.entry(t).or_insert(0) += 1;
